@@ -911,7 +911,9 @@ def _type_with_default_value_if_exists(cls_dict, defaults, field_name, the_type)
             if isinstance(the_type, Field):
                 the_type._try_default_value(default_value)
             else:
-                the_type = the_type(default=default_value)
+                # pass the declared default itself: a factory stays a factory (Field.__init__ validates its
+                # product), as it does for "x: Integer = factory" and "Integer(default=factory)"
+                the_type = the_type(default=default)
         except Exception as e:
             raise e.__class__(f"{field_name}: {str(e)}") from e
         defaults[field_name] = cls_dict[field_name]
